@@ -511,6 +511,17 @@ def check(name, goal, kind="ensures", note="", extra=(), fallback_extra=None):
     return st == "proved"
 
 
+def check_terms(name, equal, note=""):
+    """obligation decided in the free term algebra: syntactically equal terms are equal under every interpretation of the
+    model functions (proved); different terms give NO semantic verdict -- the result is only a candidate (failed-weak) that
+    the native replay has to confirm before it can count as a violation."""
+    c = CTX
+    st = "proved" if equal else "failed-weak"
+    o = Obl(c.prefix + name, st, None if equal else {}, "term-equality", 0.0, c.path_index, note, None, "ensures")
+    c.obls.append(o)
+    return equal
+
+
 def assume(*conds):
     for g in conds:
         if isinstance(g, SB):
